@@ -24,8 +24,9 @@ CONSTANTS K,          \* capacity of disconnectChan (8 in the code)
 VARIABLES
   ctx,     \* "live" | "cancelled"
   dch,     \* number of errors waiting in disconnectChan
-  q,       \* queue of message classes waiting for the main loop: "ok" | "bad" (handler returns an error)
-  mpc,     \* main loop:  "loop" | "blocked" (stuck in disconnect) | "wait" (wg.Wait) | "done" (Handle returned)
+  q,       \* scheduler queue: the frames waiting for the main loop ("f": has a core handler, "m": module / unknown type)
+  mpc,     \* main loop:  "loop" | "handling" (inside handleMessage) | "blocked" (stuck in disconnect)
+           \*             | "wait" (wg.Wait) | "done" (Handle returned)
   rpc,     \* receiver:   "read" | "qfull" (blocked in Dispatch) | "blocked" (stuck in disconnect) | "exit"
   spc,     \* sender:     "run" | "blocked" | "exit"
   sock,    \* "open" | "sclosed" (server closed it: handleDisconnect) | "cclosed" (client went away)
@@ -46,10 +47,12 @@ CanPush == Push \/ ~Blocking
 (* Client                                                                  *)
 (***************************************************************************)
 \* the client sends a frame; the receiver goroutine reads it
-\*   "ok"  : decodable, its handler succeeds        "bad" : decodable, its handler returns an error
-\*   "junk": undecodable / not binary / no timestamp: hwebsocket.Receive fails
-ClientSends(cls) ==
-  /\ sock = "open" /\ rpc = "read" /\ sent < MaxFrames
+\*   "f" / "m": decodable (with / without a core handler); whether its handler succeeds is decided when it is handled
+\*   "junk"   : undecodable / not binary / no timestamp: hwebsocket.Receive fails
+\* the receiver's side of it (in a recorded execution the observer may log a frame that was read
+\* just before the socket was closed after the closing itself; the trace specification uses this directly)
+RecvFrame(cls) ==
+  /\ rpc = "read" /\ sent < MaxFrames
   /\ sent' = sent + 1
   /\ IF cls = "junk"
      THEN \* receive error -> disconnect -> the receiver returns
@@ -60,6 +63,8 @@ ClientSends(cls) ==
      THEN /\ q' = Append(q, cls) /\ UNCHANGED <<rpc, dch, pend>>
      ELSE /\ rpc' = "qfull" /\ pend' = cls /\ UNCHANGED <<q, dch>>    \* Dispatch blocks on the full queue
   /\ UNCHANGED <<ctx, mpc, spc, sock, hd>>
+
+ClientSends(cls) == sock = "open" /\ RecvFrame(cls)
 
 ClientCloses ==
   /\ sock = "open" /\ sock' = "cclosed"
@@ -107,18 +112,24 @@ SendUnblocks ==
 (***************************************************************************)
 (* Main loop (the select of handler.Handle)                                *)
 (***************************************************************************)
-MainHandles ==                \* case msg := <-queue: handleMessage; on error disconnect(err)
+MainPops ==                   \* case msg := <-queue: the main loop takes the head and starts handleMessage
   /\ mpc = "loop" /\ ctx = "live" /\ q # <<>>
-  /\ q' = Tail(q)
-  /\ IF Head(q) = "ok" THEN mpc' = mpc /\ dch' = dch
-     ELSE IF CanPush THEN mpc' = mpc /\ dch' = (IF Push THEN dch + 1 ELSE dch)
-     ELSE mpc' = "blocked" /\ dch' = dch          \* the loop is the only reader of the channel: stuck for good
-  /\ UNCHANGED <<ctx, rpc, spc, sock, hd, sent, pend>>
+  /\ q' = Tail(q) /\ mpc' = "handling"
+  /\ UNCHANGED <<ctx, dch, rpc, spc, sock, hd, sent, pend>>
+
+\* handler.disconnect(err) called by the main loop itself
+MainPush(next) ==
+  IF CanPush THEN mpc' = next /\ dch' = (IF Push THEN dch + 1 ELSE dch)
+  ELSE mpc' = "blocked" /\ dch' = dch            \* the loop is the only reader of the channel: stuck for good
+
+MainFinishes(res) ==          \* handleMessage returns; on an error ("bad") disconnect(err)
+  /\ mpc = "handling"
+  /\ IF res = "ok" THEN mpc' = "loop" /\ dch' = dch ELSE MainPush("loop")
+  /\ UNCHANGED <<ctx, q, rpc, spc, sock, hd, sent, pend>>
 
 MainIdle ==                   \* case <-idleTimer.C: disconnect(idle)
   /\ mpc = "loop" /\ ctx = "live"
-  /\ IF CanPush THEN mpc' = mpc /\ dch' = (IF Push THEN dch + 1 ELSE dch)
-     ELSE mpc' = "blocked" /\ dch' = dch
+  /\ MainPush("loop")
   /\ UNCHANGED <<ctx, q, rpc, spc, sock, hd, sent, pend>>
 
 MainDisconnects ==            \* case err := <-disconnectChan: handleDisconnect(err); cancel()
@@ -143,8 +154,8 @@ Done == mpc = "done" /\ UNCHANGED cvars
 
 Server == RecvUnblocksQueue \/ RecvSeesClosed \/ RecvSeesCtx \/ RecvUnblocks
           \/ SendSeesCtx \/ SendFails \/ SendUnblocks
-          \/ MainHandles \/ MainDisconnects \/ MainLeavesLoop \/ MainDrains \/ MainReturns
-CNext == Server \/ (\E cls \in {"ok", "bad", "junk"} : ClientSends(cls)) \/ ClientCloses \/ Done
+          \/ MainPops \/ (\E res \in {"ok", "bad"} : MainFinishes(res)) \/ MainDisconnects \/ MainLeavesLoop \/ MainDrains \/ MainReturns
+CNext == Server \/ (\E cls \in {"f", "junk"} : ClientSends(cls)) \/ ClientCloses \/ Done
 CNextIdle == CNext \/ MainIdle
 
 CSpec     == CInit /\ [][CNext]_cvars /\ WF_cvars(Server)
